@@ -227,3 +227,55 @@ fn f28_overlay_read_retimes_lower_memory_layer() {
     let _ = ov.join("f").unwrap().read_to_string().unwrap();
     assert_ne!(f.metadata().unwrap().accessed, Some(stamp), "lower layer not re-timed");
 }
+
+/// C09 R09.12 / C05 / C03 (F36): a file in an upper layer does not hide the directory a lower layer has at the same path:
+/// `/d` is a file, yet `/d/x` exists.
+#[test]
+fn f36_overlay_file_does_not_hide_lower_directory() {
+    let lower: VfsPath = MemoryFS::new().into();
+    let upper: VfsPath = MemoryFS::new().into();
+    lower.join("d").unwrap().create_dir().unwrap();
+    lower.join("d/x").unwrap().create_file().unwrap();
+    upper.join("d").unwrap().create_file().unwrap();
+    let ov: VfsPath = OverlayFS::new(&[upper, lower]).into();
+    assert!(ov.join("d").unwrap().is_file().unwrap(), "d is not a file");
+    assert!(ov.join("d/x").unwrap().exists().unwrap(), "the entry below the file is hidden");
+    assert!(ov.join("d").unwrap().read_dir().is_err(), "the file can be listed");
+}
+
+/// C10 R10.16 (F36 through a removal): layers [upper, middle{/d file}, bottom{/d/x}]: remove the file `/d`, re-create `/d` as a
+/// directory — the re-created directory lists the bottom layer's `x`, which was never visible before.
+#[test]
+fn f36_overlay_recreated_directory_not_empty() {
+    let bottom: VfsPath = MemoryFS::new().into();
+    let middle: VfsPath = MemoryFS::new().into();
+    let upper: VfsPath = MemoryFS::new().into();
+    bottom.join("d").unwrap().create_dir().unwrap();
+    bottom.join("d/x").unwrap().create_file().unwrap();
+    middle.join("d").unwrap().create_file().unwrap();
+    let ov: VfsPath = OverlayFS::new(&[upper, middle, bottom]).into();
+    let d = ov.join("d").unwrap();
+    assert!(d.is_file().unwrap());
+    d.remove_file().unwrap();
+    assert!(!d.exists().unwrap());
+    d.create_dir().unwrap();
+    let names: Vec<String> = d.read_dir().unwrap().map(|p| p.filename()).collect();
+    assert_eq!(names, vec!["x".to_string()], "the re-created directory is empty");
+}
+
+/// async twin of F36.
+#[cfg(feature = "async-vfs")]
+#[test]
+fn f36a_async_overlay_file_does_not_hide_lower_directory() {
+    use vfs::async_vfs::*;
+    tokio_test::block_on(async {
+        let lower = AsyncVfsPath::new(AsyncMemoryFS::new());
+        let upper = AsyncVfsPath::new(AsyncMemoryFS::new());
+        lower.join("d").unwrap().create_dir().await.unwrap();
+        drop(lower.join("d/x").unwrap().create_file().await.unwrap());
+        drop(upper.join("d").unwrap().create_file().await.unwrap());
+        let ov = AsyncVfsPath::new(AsyncOverlayFS::new(&[upper, lower]));
+        assert!(ov.join("d").unwrap().is_file().await.unwrap(), "d is not a file");
+        assert!(ov.join("d/x").unwrap().exists().await.unwrap(), "the entry below the file is hidden");
+    });
+}
